@@ -61,7 +61,7 @@ TRender ==
     /\ l <= TraceLen /\ TraceLog[l].e = "Render"
     /\ pending = 1
     /\ LET ev  == TraceLog[l]
-           k   == <<AsTuple(NormAll(P.want)), ev.before>>
+           k   == <<AsTuple(CanonAll(P.want)), ev.before>>
            obs == Observation(ev, "l")
        IN
        /\ ev.key = AsTuple(P.want)                       \* the replica was given what the client wants
